@@ -36,9 +36,11 @@ META = {
 }
 
 THEOREMS = [
-    "rect_all_histories", "row_aligned", "built_datasets_are_good", "subset_spec", "subset_mask_keeps_order",
+    "rect_all_histories", "row_aligned", "collections_in_histories", "empty_collection_leaves_table", "del_keeps_collections",
+    "built_datasets_are_good", "subset_spec", "subset_mask_keeps_order",
     "extend_spec", "merge_sort_spec", "merge_sort_unique", "difference_spec", "difference_rows_paired", "key_cells_leibniz",
-    "difference_rect", "shared_reference_once", "shared_reference_store_level", "c09_sharing_lost_refuted",
+    "difference_rect", "shared_reference_once", "walk_terminates_on_reachable", "reachable_stores_are_acyclic",
+    "shared_reference_once_extend", "extend_walk_fill", "shared_reference_store_level", "c09_sharing_lost_refuted",
     "c09_subset_sum_refuted", "c09_attr_fill_refuted", "c09_unstable_sort_refuted",
 ]
 
@@ -357,6 +359,16 @@ def leaf_fields(coll, prefix=""):
     return out
 
 
+def collections_of(coll, prefix=""):
+    """[(path, len(collection))] of all (nested) collections, sorted by path"""
+    out = []
+    for name, field in coll._fields.items():
+        if field.__class__.__name__ == "CollectionField":
+            out.append((prefix + name, len(field.data)))
+            out.extend(collections_of(field.data, prefix + name + "."))
+    return sorted(out)
+
+
 def obj_kind(o):
     from midgard.data._time import TimeArray, TimeDeltaArray
     from midgard.data.sigma import SigmaArray
@@ -440,14 +452,15 @@ def snapshot(ds):
             unit = tuple(field._unit)
         num = visit(field.data, unit)
         flds.append((path, num, int(field.num_obs)))
-    term = "(OState " + emit.nat(int(ds.num_obs)) + " " + emit.lst(
+    term = ("(OState " + emit.nat(int(ds.num_obs)) + " " + emit.lst(
         emit.pair(emit.s(p), emit.nat(o), emit.nat(fn)) for p, o, fn in flds) + " " + emit.lst(
         emit.pair(emit.nat(num), "(mkO " + " ".join([
             KCOQ[kind], emit.b(two), emit.nat(w),
             "None" if unit is None else "(Some " + emit.lst(emit.s(u) for u in unit) + ")",
             emit.lst(payload_term(kind, r) for r in rows),
             emit.lst(emit.pair(emit.s(a), emit.nat(t)) for a, t in refs)]) + ")")
-        for num, kind, two, w, unit, rows, refs in objs) + ")"
+        for num, kind, two, w, unit, rows, refs in objs) + " "
+            + emit.lst(emit.pair(emit.s(c), emit.nat(n)) for c, n in collections_of(ds)) + ")")
     summary = {"num_obs": int(ds.num_obs),
                "fields": {p: {"rows": len(objs[o][5]), "field.num_obs": fn,
                               "refs": {a: len(objs[t][5]) for a, t in objs[o][6]}} for p, o, fn in flds}}
@@ -836,6 +849,9 @@ def random_history(ctx, rng, label, max_ops, big=False):
             sort_by = rng.choice(["key", "rid", "rid", "time" if "time" in sch and sch["time"]["kind"] == "time" else "rid", None])
             h.merge(others, sort_by)
             ctx.count("op:merge" + ("_sorted" if sort_by else ""))
+        elif r < 0.66 and rng.random() < 0.12:
+            h.add_collection(rng.choice(["", "grp.", "new."]) + f"e{step}")
+            ctx.count("op:add_collection")
         elif r < 0.66:
             kind = rng.choice(KINDS)
             path = rng.choice(["", "", "grp.", "new."]) + f"n{step}"
@@ -1153,9 +1169,6 @@ def run(ctx):
             # the model's precondition for extend (congruent sharing) does not hold: not judged further
             ctx.count("outside_model_domain:incongruent_sharing")
             continue
-        if cls == 1 and h["flags"].get(step) and h["steps"][step][0].startswith(("Extend ", "Merge ")):
-            # class predicate evaluated on the real objects before the step: a collection of self did not report num_obs rows
-            cls = 8
         at = [s for s in h["summaries"] if s.get("step") == step]
         oracle = [b for s in at if "fields" in s for b in rect_oracle(s)][:6]
         rep = dict(kind="history", label=h["label"], deviating_step=step, verdict_class=cls,
